@@ -367,7 +367,8 @@ class X86_64Arch(Architecture):
                     # We need stack location!
                     arg_size = self.info.get_size(arg_type)
                     reg = StackLocation(offset, arg_size)
-                    offset += arg_size
+                    # Every argument takes a whole 8 byte stack slot:
+                    offset += 8
             elif isinstance(arg_type, ir.BlobDataTyp):
                 reg = StackLocation(offset, arg_type.size)
                 offset += arg_type.size
